@@ -1164,10 +1164,12 @@ var corePrims = []prim{
 func num(f float64) value   { return pv(pNum(f)) }
 func str(s string) value    { return pv(pStr(s)) }
 
-// pinned witnesses of the recorded findings; they run first on every seed
+// pinned witnesses of the recorded findings, open (classes 2, 3, 4, 7) and repaired (ToInt32 beyond 2^63: 02e659b,
+// a + b order: 0c8f777, x op= e order: 3657e0a, instanceof on a bound function: ea21c58; these now expect the
+// ES5 result and a relapse is a violation); they run first on every seed
 func (g *gen) pinned() {
 	u := [3]value{pv(pUndef()), pv(pUndef()), pv(pUndef())}
-	// class 1: ToInt32 / ToUint32 / ToUint16 beyond 2^63
+	// repaired (02e659b): ToInt32 / ToUint32 / ToUint16 beyond 2^63
 	g.runCase(u, bin(6, lit(num(9223372036854777856)), lit(num(0))), "pinned", true)
 	g.runCase(u, un(11, lit(num(9223372036854777856))), "pinned", true)
 	g.runCase(u, un(9, lit(num(-9223372036854777856))), "pinned", true)
@@ -1179,7 +1181,7 @@ func (g *gen) pinned() {
 	g.runCase(u, un(0, lit(str("0x8000000000000000"))), "pinned", true)
 	// class 4: string comparison
 	g.runCase(u, bin(15, lit(str("\uffff")), lit(str("\U00010000"))), "pinned", true)
-	// class 5: a + b with a.valueOf writing b
+	// repaired (0c8f777): a + b with a.valueOf writing b
 	g.nextID = 1
 	o := &obj{id: 1, base: "{}", chain: []int64{90}, fproto: -1, vo: meth{present: true, setv: 1, setp: pNum(10), ret: retPrim, p: pNum(1)}, ts: meth{present: true, setv: -1, ret: retPrim, p: pStr("x")}}
 	g.objs = append(g.objs, o)
@@ -1432,7 +1434,7 @@ func runC05(env *Env) {
 	}
 	r := env.Rng
 	g.pinned()
-	{ // class 8: (new F) instanceof F.bind(null)
+	{ // repaired (ea21c58): (new F) instanceof F.bind(null)
 		inst := &obj{id: 1, base: "Object.create(o91)", chain: []int64{91, 90}, fproto: -1, vo: meth{present: true, setv: -1, ret: retPrim, p: pNum(1)}, ts: meth{inherit: true}}
 		bf := &obj{id: 2, cls: 4, base: "function(){}", chain: []int64{89, 90}, fproto: 91, vo: meth{inherit: true, setv: -1}, ts: meth{inherit: true, setv: -1}}
 		bf.vo, bf.ts = meth{present: true, setv: -1, ret: retPrim, p: pNum(2)}, meth{present: true, setv: -1, ret: retPrim, p: pStr("f")}
